@@ -104,9 +104,9 @@ Proof.
     destruct (Nat.ltb_spec (length buf) off); [lia|].
     destruct (Nat.ltb_spec (length buf - off) 4); [lia|].
     rewrite H, firstn_app_exact' by (symmetry; apply u32_length).
-    rewrite unle_u32 by assumption. unfold blen. rewrite Nat2N.id.
-    destruct (Nat.ltb_spec (length buf - (off + 4)) (length s)); [lia|].
-    rewrite H4, firstn_app_exact. reflexivity.
+    rewrite unle_u32 by assumption. unfold blen.
+    destruct (N.ltb_spec (N.of_nat (length buf - (off + 4))) (N.of_nat (length s))); [lia|].
+    rewrite Nat2N.id. rewrite H4, firstn_app_exact. reflexivity.
   - rewrite skipn_add, H4. apply skipn_app_exact.
 Qed.
 
@@ -800,8 +800,8 @@ Proof.
   step get_u64_step H. step get_u16_step H. step get_u32_step H. step get_u32_step H.
   step get_u32_step H. step get_u32_step H. step get_u64_step H. step get_u64_step H.
   step get_u32_step H.
-  unfold blen at 1 2. rewrite Nat2N.id.
-  match goal with |- context [Nat.ltb ?a ?b] => destruct (Nat.ltb_spec a b) end; [lia|].
+  match goal with |- context [N.ltb ?a ?b] => destruct (N.ltb_spec a b) end; [unfold blen in *; lia|].
+  unfold blen at 1. rewrite Nat2N.id.
   rewrite (parse_counts_loop_ok buf _ pad cnts); [reflexivity | exact H9 | exact H | reflexivity | lia].
 Qed.
 
